@@ -72,6 +72,63 @@ static void base_destroy(sqfs_object_t *o) { (void)o; }
 static tar_iterator_t IT;
 static sqfs_istream_t BASE;
 
+#ifdef SPARSE
+/*
+ * SPARSE shape: one member with a sparse map of one data region
+ * [so, so+sc) inside a file of fs bytes (all symbolic, fs <= FSMAX); only the
+ * sc data bytes are in the archive.  The consumer reads the whole member.
+ * Post: exactly fs bytes are delivered; a byte at file offset o comes from
+ * the archive iff so <= o < so+sc, otherwise from the zero buffer; the archive
+ * is advanced by exactly sc bytes, so the next header is found.
+ */
+#ifndef FSMAX
+#define FSMAX 12
+#endif
+static sparse_map_t MAP;
+void harness(void)
+{
+	sqfs_dir_entry_t *ent = NULL;
+	sqfs_istream_t *ms = NULL;
+	sqfs_u64 fs = ND_U64(), so = ND_U64(), sc = ND_U64(), off = 0, data_start, from_archive = 0;
+	int ret, done = 0;
+
+	VP_ASSUME(fs <= FSMAX && so <= fs && sc >= 1 && sc <= fs - so);
+	R[0] = sc; R[1] = 0;
+	POS = 4096;
+	BASE.base.refcount = 1; BASE.base.destroy = base_destroy; BASE.get_buffered_data = base_get; BASE.advance_buffer = base_adv;
+	IT.base.obj.refcount = 1; IT.base.obj.destroy = it_destroy;
+	IT.stream = &BASE;
+	ret = it_next(&IT.base, &ent);
+	VP_ASSERT(ret == 0 && ent != NULL, "entry");
+	free(ent);
+	/* what read_header() delivers for a sparse member */
+	MAP.offset = so; MAP.count = sc; MAP.next = NULL;
+	IT.current.sparse = &MAP; IT.current.actual_size = fs; IT.file_size = fs;
+	data_start = POS;
+	ret = it_open_file_ro(&IT.base, &ms);
+	VP_ASSERT(ret == 0 && ms != NULL, "member stream");
+	for (int k = 0; k < FSMAX + 2; ++k) {
+		const sqfs_u8 *p; size_t n = 0;
+		ret = strm_get_buffered_data(ms, &p, &n, 4096);
+		if (ret != 0) { done = 1; break; }
+		VP_ASSERT(n >= 1 && off + n <= fs, "C04: never more than the file size");
+		if (off >= so && off < so + sc) {
+			VP_ASSERT(p == CHUNK && off + n <= so + sc, "C04: bytes inside the mapped region come from the archive and do not run past the region");
+			from_archive += n;
+		} else {
+			VP_ASSERT(p == ((tar_istream_t *)ms)->buffer && p[0] == 0 && (off >= so || off + n <= so), "C04: bytes outside the mapped region are zeros and do not run into the region");
+		}
+		strm_advance_buffer(ms, n);
+		off += n;
+	}
+	if (ret < 0) { VP_ASSERT(io_fail, "only I/O errors"); VP_REACH("io_error"); IT.current.sparse = NULL; return; }
+	VP_ASSERT(done && off == fs, "C04: a sparse member is delivered with exactly its real size");
+	VP_ASSERT(from_archive == sc && POS == data_start + sc, "C04: exactly the stored bytes are taken from the archive");
+	IT.current.sparse = NULL;
+	strm_destroy((sqfs_object_t *)ms);
+	VP_REACH("sparse_member");
+}
+#else
 void harness(void)
 {
 	sqfs_dir_entry_t *ent = NULL;
@@ -129,3 +186,4 @@ void harness(void)
 		VP_REACH("io_error");
 	}
 }
+#endif
